@@ -25,7 +25,7 @@ class C16(BaseCheck):
   REQUIRED_CLASSES = ('singleton', 'refcount', 'shared', 'concurrent-first-requests', 'replaced-after-failure',
                       'surplus-close', 'reopen-after-last-close', 'same-key', 'different-key',
                       'underlying-closed-while-held', 'underlying-state-changes',
-                      'requester-abandoned-while-opening', 'several-holders', 'holder-gone-before-connect', 'concurrent-holders',
+                      'requester-abandoned-while-opening', 'several-holders', 'holder-gone-before-connect', 'concurrent-holders', 'open-during-yielding-last-close',
                       'surplus-close-from-inside-close', 'underlying-close-raises', 'underlying-open-fails-later')
   QUICK_CASES = 1500
   THOROUGH_CASES = 120000
@@ -301,6 +301,7 @@ class C16(BaseCheck):
 
   # ------------------------------------------------------------------ refcount
   def _refcount(self, env, rng, idx, out):
+    import gevent
     from scales.asynchronous import AsyncResult
     from scales.sink import ClientMessageSink, RefCountedSink
     classes = set(out.classes)
@@ -318,6 +319,7 @@ class C16(BaseCheck):
       def Open(self):
         ar = AsyncResult()
         log.append(('open', ar))
+        marks.append('open')
         if rng.random() < 0.7:
           ar.set(True)
         return ar
@@ -326,7 +328,13 @@ class C16(BaseCheck):
         log.append(('close', None))
         how = close_behaviour[0]
         close_behaviour[0] = None
-        if how == 'reenter':
+        if how == 'yield':
+          # tearing the connection down does cooperative work: other greenlets run meanwhile
+          marks.append('close-begin')
+          gevent.sleep(0)
+          gevent.sleep(0)
+          marks.append('close-end')
+        elif how == 'reenter':
           # tearing the connection down fails a pending request whose handler closes its client
           # again: a surplus Close() of the shared sink from inside the last Close()
           classes.add('surplus-close-from-inside-close')
@@ -341,6 +349,7 @@ class C16(BaseCheck):
       def AsyncProcessResponse(self, *a):
         pass
     close_behaviour = [None]
+    marks = []
     under = Under()
     rc = RefCountedSink(under)
     holders = rng.randint(1, 6)
@@ -386,13 +395,29 @@ class C16(BaseCheck):
           out.violate('refcount:open-result', 'holder got a different open result than the first holder', {})
         count += 1
       else:
+        newcomer = None
         if count == 1 and rng.random() < 0.3:
-          close_behaviour[0] = rng.choice(['reenter', 'raise'])
+          close_behaviour[0] = rng.choice(['reenter', 'raise', 'yield'])
+          if close_behaviour[0] == 'yield':
+            # ... and a new holder opens the shared sink in the very instant the last one closes it
+            classes.add('open-during-yielding-last-close')
+            del marks[:]
+            newcomer = gevent.spawn(rc.Open)
         try:
           rc.Close()
         except OSError:
           pass        # the underlying Close() error reaches the closing holder; the sink is closed all the same
         close_behaviour[0] = None
+        if newcomer is not None:
+          newcomer.join(timeout=2)
+          env.settle()
+          out.obligations += 2
+          if marks != ['close-begin', 'close-end', 'open']:
+            out.violate('refcount:open-during-close', 'a holder opened the shared sink while the last holder\'s Close() was tearing the '
+                        'underlying sink down: underlying events %r (expected the close to finish, then a fresh open)' % (marks,), {})
+          elif not newcomer.successful() or newcomer.value is not log[-1][1]:
+            out.violate('refcount:open-result', 'the holder that opened during the last Close() got %r' % (
+              newcomer.exception or newcomer.value,), {})
         closes = sum(1 for e in log if e[0] == 'close') - closes_before
         out.obligations += 1
         if count == 0:
@@ -404,6 +429,9 @@ class C16(BaseCheck):
             out.violate('refcount:last-close', 'last Close made %d underlying Close calls' % closes, {})
           count = 0
           current_ar = None
+          if newcomer is not None:
+            count = 1
+            current_ar = [e[1] for e in log if e[0] == 'open'][-1]
         else:
           if closes != 0:
             out.violate('refcount:early-close', 'Close with %d holders left closed the underlying sink' % (count - 1), {})
